@@ -116,6 +116,9 @@ def stepC15 (d : DS) (op : Json) : DS × Json :=
   | "enableRule" =>
     let (cs, r) := d.cs.at n (hEnableRule cfg c id (jbool op "enable") now); fin cs (res r (fun _ => Json.bool true))
   | "clear" => let (cs, r) := d.cs.at n (hClear cfg c now); fin cs (res r (fun _ => Json.bool true))
+  -- `Location.Delete` → `State.Delete`: the guards, hooks and the emptied state of `Clear` (the storage of the location goes too,
+  -- which no later operation can tell from an emptied one)
+  | "deleteLoc" => let (cs, r) := d.cs.at n (hClear cfg c now); fin cs (res r (fun _ => Json.bool true))
   | "reload" => let (cs, r) := hReload d.cs n now; fin cs (res r (fun _ => Json.bool true))
   | "restart" => let (cs, r) := hRestart d.cs d.names now; fin cs (res r (fun _ => Json.bool true))
   | "sleep" => fin d.cs (okJ (Json.bool true))
